@@ -98,7 +98,8 @@ def attr_value(v):
 
 def gen_filespec(rng, maxdims=5, maxvars=6, allow_unlimited=True,
                  allow_scalar=True, dtypes=None, allow_char=False,
-                 maxlen=6, mask_prob=0.4, coord_prob=0.5, names=None):
+                 maxlen=6, mask_prob=0.4, coord_prob=0.5, names=None,
+                 bounds_prob=0.0):
     dtypes = dtypes or DTYPES
     nd = int(rng.integers(2, maxdims + 1))
     pool = list(names) if names else (
@@ -150,6 +151,19 @@ def gen_filespec(rng, maxdims=5, maxvars=6, allow_unlimited=True,
             'coords': []}
     if rng.random() < 0.5:
         spec['coords'] = [v['name'] for v in vars_ if v['kind'] != 'data']
+    cvars = [v for v in vars_ if v['kind'] != 'data']
+    if bounds_prob and cvars and rng.random() < bounds_prob and \
+            'nv' not in dlen:
+        # a CF bounds variable (c, nv) of one coordinate variable, declared
+        # as a coordinate too: its second dimension is used by nothing else
+        c = cvars[int(rng.integers(len(cvars)))]
+        dims.append(['nv', 2, False])
+        c['attrs'] = list(c['attrs']) + [['bounds', c['name'] + '_bounds']]
+        vars_.append({'name': c['name'] + '_bounds',
+                      'dims': [c['name'], 'nv'], 'dtype': 'f8',
+                      'kind': 'data', 'mask': 'none', 'fill': None,
+                      'seed': int(rng.integers(1 << 30)), 'attrs': []})
+        spec['coords'] = [v['name'] for v in cvars] + [c['name'] + '_bounds']
     return spec
 
 
